@@ -187,7 +187,8 @@ def run_cicada(argv, case_dir, cwd=None, env=None, stdin=None, timeout=10.0, exe
     """Run the real binary once. argv excludes argv[0]. Returns a Run."""
     exe = exe or CICADA
     e = base_env(case_dir, env)
-    os.makedirs(e['HOME'], exist_ok=True)
+    if e['HOME'].startswith(case_dir):
+        os.makedirs(e['HOME'], exist_ok=True)
     t0 = time.time()
     p = subprocess.Popen([exe] + list(argv), cwd=cwd or case_dir, env=e,
                          stdin=subprocess.PIPE if stdin is not None else subprocess.DEVNULL,
